@@ -294,7 +294,7 @@ CHECKS["C17"] = dict(
          "0..50 us latency, 1..4 goroutines gathering continuously, and burst workloads in which all workers are one client and start each round together; process must stay alive, Gather never errors, counters never decrease, final totals lie in the interval computed from the workers' timestamps. "
          "Every concurrent workload counts as non-trivial; it is journalled before it runs so that a process death yields its replay file.",
     assumptions=["fake-time engine: Go 1.26 timer semantics", "schedules are sampled, not enumerated"],
-    units=[unit("props26", ["Ledger"], "C17"), unit("props", ["Concurrent"], "C17", crash_is_violation=True, wedge_is_violation=True)],
+    units=[unit("props26", ["Ledger", "E2E"], "C17"), unit("props", ["Concurrent"], "C17", crash_is_violation=True, wedge_is_violation=True)],
 )
 
 CHECKS["C12"] = dict(
